@@ -398,7 +398,7 @@ fn fresh_engine_fires(c: &Case, rule: usize, contents: &BTreeMap<String, V>) -> 
 }
 
 fn build(c: &Case, rec: &Arc<Mutex<Vec<Firing>>>) -> Result<IncrementalEngine, &'static str> {
-    let mut engine = IncrementalEngine::new();
+    let mut engine = crate::core::new_or_default(IncrementalEngine::new);
     for (idx, r) in c.rules.iter().enumerate() {
         let rule = if VIA_PARSER.with(|v| v.get()) {
             let mut p = match rust_rule_engine::GRLParser::parse_rules(&rule_text(r)) {
